@@ -269,6 +269,7 @@ type Query struct {
 	Quant    bool
 	Expect   string // "" normal; "fail" for canaries (must NOT be unsat); "sat" for vacuity probes (must not be unsat)
 	Property []string
+	ShortBudget bool // quick tier, obligation listed as a known finding
 }
 
 type Result struct {
@@ -437,8 +438,9 @@ func Solve(ctx context.Context, cfg *SolverCfg, q *Query) *Result {
 		}
 		return res
 	}
-	if q.Expect != "" {
-		// canaries and vacuity probes only need "not refuted": one short attempt on a second solver
+	if q.Expect != "" || q.ShortBudget {
+		// canaries and vacuity probes only need "not refuted" (and known findings "still not proved"):
+		// one short attempt on a second solver
 		if len(order) > 1 {
 			st2, out2, ms2 := runSolver(ctx, cfg, order[1], text, first)
 			res.Attempt = append(res.Attempt, fmt.Sprintf("%s:%s:%dms", order[1], st2, ms2))
